@@ -145,6 +145,22 @@ def run (m : GMap K V) : List (Op K V) → GMap K V × List (Out V)
     let rs := run r.1 ops
     (rs.1, r.2 :: rs.2)
 
+/-! ### The other observers of the visible state, and `extend` -/
+
+/-- `iter` (groupingmap.rs:361) = `backing_container.iter()`: the visible pairs, in the backing map's order. -/
+def iter (m : GMap K V) : AList K V := m.bc
+
+/-- `len` (groupingmap.rs:376) = `backing_container.len()`. -/
+def len (m : GMap K V) : Nat := m.bc.length
+
+/-- `is_empty` (groupingmap.rs:381) = `BackingContainer::is_empty` = `len() == 0`. -/
+def isEmpty (m : GMap K V) : Bool := m.len == 0
+
+/-- `extend` (groupingmap.rs:345-349): `for (key, val) in iter { self.insert(key, val, Scope::Local); }` -/
+def extend (m : GMap K V) : List (K × V) → GMap K V
+  | [] => m
+  | (k, v) :: t => extend (m.insert k v .loc).1 t
+
 /-! ### `iter_all` (groupingmap.rs:506-568) -/
 
 /-- Inner loop of `IterAll::new` over one group log: `ktv` is `key_to_val`; returns the
